@@ -16,11 +16,11 @@ package producer
 //@   opt countcalls Fprintf
 //@   callassert Fprintf: arg1 == "%s\n" && len(arg2) == 1 && iskind(arg2[0], bytes) && sameview(anybytes(arg2[0]), msg)
 //@   modifies rs.connection, ec
-//@   loop 1 @ for
+//@   loop 1 @ for #96ecfb00
 //@     invariant rs != nil && rs.logger != nil && ec != nil
 //@     step [delivered] calls_Fprintf >= iter(calls_Fprintf) + 1
 //@     step [once] val(ec) == iter(val(ec)) ==> calls_Fprintf == iter(calls_Fprintf) + 1   // more than one write only after a counted error
-//@   loop 2 @ for
+//@   loop 2 @ for #9fbfa3b9
 //@     invariant rs != nil && rs.logger != nil && ec != nil && 0 <= i && calls_Fprintf == pre(calls_Fprintf) + i && val(ec) == (pre(val(ec)) + i) % 18446744073709551616
 //@     decreases rs.config.MaxRetry - i >= 0 ? rs.config.MaxRetry - i + 1 : 0
 
@@ -33,11 +33,11 @@ package producer
 //@   opt nonterminating
 //@   opt countsends Input
 //@   modifies ec
-//@   loop 1 @ for
+//@   loop 1 @ for #0378565f
 //@     invariant k != nil && k.logger != nil && ec != nil && k.producer != nil
 //@     step [once] sends_Input == iter(sends_Input) + 1
 //@     step [unchanged] lastsent_Input != nil && val(lastsent_Input).Topic == topic && iskind(val(lastsent_Input).Value, bytes) && sameview(anybytes(val(lastsent_Input).Value), msg)
-//@   loop 2 @ for !sent
+//@   loop 2 @ for !sent #bdd7802b
 //@     invariant k != nil && k.logger != nil && ec != nil && k.producer != nil
 //@     invariant sends_Input == pre(sends_Input) + (sent ? 1 : 0)
 //@     invariant sent ==> lastsent_Input != nil && val(lastsent_Input).Topic == topic && iskind(val(lastsent_Input).Value, bytes) && sameview(anybytes(val(lastsent_Input).Value), msg)
@@ -50,7 +50,7 @@ package producer
 //@   opt countcalls Publish
 //@   callassert Publish: arg0 == topic && sameview(arg1, msg)
 //@   modifies ec
-//@   loop 1 @ for
+//@   loop 1 @ for #5005ce46
 //@     invariant n != nil && n.logger != nil && ec != nil && n.producer != nil
 //@     step [once] calls_Publish == iter(calls_Publish) + 1
 
@@ -61,7 +61,7 @@ package producer
 //@   opt countcalls Publish
 //@   callassert Publish: arg0 == topic && sameview(arg1, msg)
 //@   modifies ec
-//@   loop 1 @ for
+//@   loop 1 @ for #e6a13e71
 //@     invariant n != nil && n.logger != nil && ec != nil && n.connection != nil
 //@     step [once] calls_Publish == iter(calls_Publish) + 1
 
